@@ -1,5 +1,6 @@
 (* C20 - rollback snapshots stay bounded in number and age.  Statements only. *)
 From MDK Require Import Base.Prelude Base.AMap Mdk.Engine Mdk.EngineSpec Mdk.EngineProofs Mdk.EngineProofs2 Store.Contract Store.ContractSpec Store.ContractProofs.
+From MDK Require Import Mdk.EngineProofs2 Mdk.EngineProofs3 Mdk.EngineProofs4 Mdk.EngineProofs5.
 
 (* never more snapshots than the configured retention, after every operation of every history (retention 0 included) *)
 Theorem C20_queue_bounded_step : forall c o, lenN (queue c) <= retention c -> lenN (queue (estep c o)) <= retention (estep c o).
@@ -27,3 +28,15 @@ Theorem C20_ttl_prune_exact : forall s min_ts k v,
   live (fst (step s (Prune min_ts))) = live s.
 Proof. exact ttl_prune_exact. Qed.
 Print Assumptions C20_ttl_prune_exact.
+
+(* a session restarted with ANOTHER retention (restart_with): nothing observable changes at the restart, and the next commit
+   applied brings the number of stored snapshots within the new limit, whatever was stored before *)
+Theorem C20_retention_change_next_commit_bounds : forall c r e cm,
+  lenN (queue (fst (apply_commit (restart_with c r) e cm))) <= r.
+Proof. exact restart_with_then_commit. Qed.
+Print Assumptions C20_retention_change_next_commit_bounds.
+
+Theorem C20_retention_change_keeps_state : forall c r,
+  kc (restart_with c r) = kc c /\ Engine.msgs (restart_with c r) = Engine.msgs c /\ Engine.dedup (restart_with c r) = Engine.dedup c /\ retention (restart_with c r) = r.
+Proof. exact restart_with_keeps_state. Qed.
+Print Assumptions C20_retention_change_keeps_state.
